@@ -90,7 +90,7 @@ fn walrus_parse(env: &Env, bytes: &[u8], cfg: &CfgBits, via_file: u8, tag: u64) 
 
 fn build_bytes(case: &Case) -> (Vec<u8>, Vec<&'static str>) {
     if let Some((depth, kind)) = case.bomb {
-        return (faults::nest_bomb(depth, kind), vec!["nest_bomb"]);
+        return (faults::nest_bomb(depth, kind), vec![if kind >= 10 { "valid_module_large_in_one_dimension" } else { "nest_bomb" }]);
     }
     let mut b = inputs::bytes_of(&case.victim);
     let mut fired = Vec::new();
@@ -138,6 +138,17 @@ impl Prop for C05 {
             let depth = *rng.pick(&[1000u32, 10_000, 20_000, 30_000, 40_000, 43_000, 60_000, 100_000, 300_000, 1_000_000]);
             let kind = rng.below(6) as u8;
             let case = Case { victim: inputs::input_ref("nest-bomb", &[]), recipe: None, faults: vec![], bomb: Some((depth, kind)), via_file: 0, cfg_mask: CfgBits::walrus_default().mask() };
+            return serde_json::to_value(case).unwrap();
+        }
+        if index % 1499 == 11 {
+            // VALID modules that are large in one dimension: parsing must neither hang nor blow up
+            let kind = 10 + rng.below(9) as u8;
+            let n = match kind {
+                10 => *rng.pick(&[20u32, 300, 1000]),
+                18 => *rng.pick(&[1000u32, 50_000]),
+                _ => *rng.pick(&[1000u32, 20_000, 100_000]),
+            };
+            let case = Case { victim: inputs::input_ref("scale-bomb", &[]), recipe: None, faults: vec![], bomb: Some((n, kind)), via_file: 0, cfg_mask: CfgBits::walrus_default().mask() };
             return serde_json::to_value(case).unwrap();
         }
         if index % 89 == 0 {
